@@ -6,7 +6,7 @@ res="$pid$x:"
 (cd $wt && PYTHONPATH=$wt timeout 600 /venv/bin/python $src/demo$x.py > /tmp/confirm/${pid}$x.clean.log 2>&1); c=$?
 git -C $wt apply $src/patch$x.diff || { echo "$res patch does not apply"; git -C /repo worktree remove --force $wt; exit 3; }
 (cd $wt && PYTHONPATH=$wt timeout 600 /venv/bin/python $src/demo$x.py > /tmp/confirm/${pid}$x.mut.log 2>&1); m=$?
-(cd $wt && PYTHONPATH=$wt timeout 1500 /venv/bin/python -m pytest -q -p no:cacheprovider --timeout=900 --deselect tensorly/datasets/tests/test_imports.py::test_indian_pines --deselect tensorly/tests/test_backend.py::test_svd_time tensorly > /tmp/confirm/${pid}$x.pytest.log 2>&1); t=$?
+(cd $wt && PYTHONPATH=$wt timeout 5400 /venv/bin/python -m pytest -q -p no:cacheprovider --timeout=900 --deselect tensorly/datasets/tests/test_imports.py::test_indian_pines --deselect tensorly/tests/test_backend.py::test_svd_time tensorly > /tmp/confirm/${pid}$x.pytest.log 2>&1); t=$?
 summary=$(tail -1 /tmp/confirm/${pid}$x.pytest.log)
 git -C /repo worktree remove --force $wt
 echo "$res demo_clean_exit=$c demo_mutated_exit=$m pytest_exit=$t [$summary]"
